@@ -523,11 +523,17 @@ def kernel_segment_area():
     if ast.unparse(loop.target).strip("()") != "p0, p1" or ast.unparse(loop.iter) != "zip(point_tuple, point_tuple[1:])" or loop.orelse:
         raise Untranslatable("integrate_interval: unexpected loop header " + ast.unparse(loop.target) + " in " + ast.unparse(loop.iter))
     body = list(loop.body)
-    # the two unpacking statements define the parameters
-    want = ["t0, v0, cchr0 = p0", "t1, v1, _ = p1"]
-    got = [ast.unparse(s).replace("(", "").replace(")", "") for s in body[:2]]
-    if got != want:
-        raise Untranslatable(f"integrate_interval: unexpected unpacking {got}")
+    # the two unpacking statements define the parameters (whatever they are called): a, b, c = p0 ; d, e, _ = p1
+    names = []
+    for st, src_name in zip(body[:2], ("p0", "p1")):
+        if not (isinstance(st, ast.Assign) and len(st.targets) == 1 and isinstance(st.targets[0], ast.Tuple)
+                and len(st.targets[0].elts) == 3 and all(isinstance(x, ast.Name) for x in st.targets[0].elts)
+                and isinstance(st.value, ast.Name) and st.value.id == src_name):
+            raise Untranslatable(f"integrate_interval: unexpected unpacking {ast.unparse(st)}")
+        names.append([x.id for x in st.targets[0].elts])
+    (t0n, v0n, c0n), (t1n, v1n, _unused) = names
+    if len({t0n, v0n, c0n, t1n, v1n}) != 5 or _unused in (t0n, v0n, c0n, t1n, v1n):
+        raise Untranslatable("integrate_interval: unpacked names are not distinct")
     # statements around the loop: start == end -> 0; integral = 0; return float(integral)
     before = [ast.unparse(s) for s in strip_doc(f.body) if not isinstance(s, ast.For)]
     before = [b[1:].replace(") =", " =", 1) if b.startswith("(start, end) =") else b for b in before]
@@ -539,7 +545,7 @@ def kernel_segment_area():
     code_body = tr.block(body[2:], lambda: "integral")
     name = "K_segment_step"
     code = HEADER_F.format(path=path, qual="Envelope.integrate_interval (loop body)", sha=fsha(f, text))
-    code += f"\n  Definition {name} (integral t0 v0 cchr0 t1 v1 : F) : F :=\n{indent(code_body, 4)}.\nEnd K.\n"
+    code += f"\n  Definition {name} (integral {ident(t0n)} {ident(v0n)} {ident(c0n)} {ident(t1n)} {ident(v1n)} : F) : F :=\n{indent(code_body, 4)}.\nEnd K.\n"
     return name, code
 
 
